@@ -102,7 +102,8 @@ def run(ctx):
             stats['files_ok' if out[0] == 'ok' else 'files_rejected'] += 1
             short = {k: inp[k] for k in ('k', 'invalid_member', 'invalid_kind')}
             short['text'] = inp['text'][:600]
-            tolerated = out[0] == 'err' and m[0] == 'err' and 'syntax' in (out[1], m[1]) and not out[1].startswith('internal') and not m[1].startswith('internal')
+            tolerated = (out[0] == 'err' and m[0] == 'err' and 'syntax' in (out[1], m[1]) and out[1] in ('syntax', 'sanity', 'type', 'value')
+                         and m[1] in ('syntax', 'sanity', 'type', 'value'))
             if out != m and not tolerated:      # several defects in one text: Lark reports the first in LALR reduce order, the model syntax first
                 disagreements.append({'input': short, 'impl': [out[0], out[1][:300]], 'model': [m[0], m[1][:300]]})
             # the statement: exactly the members, in order, each with its own annotations; same error class as the offending member
